@@ -83,14 +83,16 @@ def rule_codes(ctx):
 
 
 def run(ctx):
-    from ..rules import generic as _G11
-    _G11.rule_F11(ctx, ['partitura.score'], 'C10')
     G.rule_F8a(ctx, ENTRY, "maps")
     M.rule_F7d_measure_maps(ctx)
     M.rule_backfill_siblings(ctx)
     M.rule_empty_2d(ctx)
     from ..rules import extra as X
     X.rule_number_none_test(ctx)
+    # the metrical-position columns (rel_onset_div, tot_measure_div) are the map's values in division units: they follow the
+    # lcm rescaling of the score-level note array like every other division column
+    from ..rules import arrays as _A
+    _A.rule_rescale_set(ctx, "partitura.utils.music:note_array_from_note_list", "partitura.utils.music:note_array_from_part_list")
     M.rule_interp_kwargs(ctx)
     M.rule_F4b(ctx)
     rule_codes(ctx)
